@@ -92,8 +92,8 @@ def check(ctx):
     cases = ["S " + ll.hx(s) for s in strs]
     log("C13: %d strings (%d exhaustive up to %d chars)" % (len(cases), sum(len(ALPHA) ** k for k in range(maxlen + 1)), maxlen))
 
-    rust = ll.run_sharded(exe, cases, "c13.rust")
-    model = ll.run_sharded(drv, cases, "c13.model")
+    rust = ll.run_sharded(exe, cases, "c13.%s.rust" % ctx.tier)
+    model = ll.run_sharded(drv, cases, "c13.%s.model" % ctx.tier)
 
     t3_bad = t2_bad = 0
     vm_src = []
@@ -186,7 +186,7 @@ def check(ctx):
             ex.append(("merge", "merge_spans %s (%s, %s) (%s, %s) = %s" % (bs, *s1.split("-"), *s2.split("-"), rr)))
     hdr = ("From Coq Require Import List NArith.\nFrom PT Require Import Model.Base Model.Lines Model.SpanOps.\n"
            "Import ListNotations.\n")
-    ok, msg = ll.vm_check(ctx, "C13", hdr, ex)
+    ok, msg = ll.vm_check(ctx, "C13_%s" % ctx.tier, hdr, ex)
     ctx.oblige("extraction cross-check: %d sampled calls, vm_compute in coqc == extracted OCaml" % len(ex), ok and len(ex) > 0, msg)
 
     if not proofs_ok and not ctx.violations:
